@@ -1315,7 +1315,51 @@ def _vterm(tu, e, env, depth=0):
                 except _NoForm:
                     pass
             return _vterm(tu, ret, env2, depth + 1)
+        h = _select_return(tu, e)
+        if h is not None and obj is None:
+            # a helper of the form `if (c) return a; return b;`: the selection c ? a : b, its condition read in the helper's scope
+            fn, c, ra, rb = h
+            env2 = {}
+            for pp, a in zip(fn['params'], args):
+                try:
+                    env2[pp['id']] = _vterm(tu, a, env, depth + 1)
+                except _NoForm:
+                    pass
+            _SEL_ENV[tu.strip(c)['id']] = env2
+            return ('sel', c, _vterm(tu, ra, env2, depth + 1), _vterm(tu, rb, env2, depth + 1))
     raise _NoForm(tu.show(e))
+
+
+_SEL_ENV = {}       # id of a selection condition that lives in a helper -> the helper's parameter bindings
+
+
+def _select_return(tu, call):
+    """(function, condition, value if true, value if false) when the callee's body is `if (c) return a; [else] return b;`"""
+    fn = tu.callee_fn(call)
+    if fn is None or fn.get('dep') or tu.body(fn) is None:
+        return None
+    st = [x for x in tu.kids(tu.body(fn)) if x.get('kind') not in ('NullStmt',)]
+
+    def ret_of(x):
+        if x is None:
+            return None
+        if x.get('kind') == 'CompoundStmt' and len(tu.kids(x)) == 1:
+            x = tu.kids(x)[0]
+        if x.get('kind') == 'ReturnStmt' and tu.kids(x):
+            return tu.kids(x)[0]
+        return None
+    if not st or st[0].get('kind') != 'IfStmt':
+        return None
+    ks = tu.kids(st[0])
+    if len(ks) == 2 and len(st) == 2:
+        a, b = ret_of(ks[1]), ret_of(st[1])
+    elif len(ks) == 3 and len(st) == 1:
+        a, b = ret_of(ks[1]), ret_of(ks[2])
+    else:
+        return None
+    if a is None or b is None:
+        return None
+    return fn, ks[0], a, b
 
 
 def _perp(t, n):
@@ -1479,7 +1523,8 @@ def check_frame(ctx, tu):
                         x = tu.strip(x)
                         if x.get('kind') == 'CallExpr' and tu.sd(x).get('q', '').split('::')[-1] == 'dot' and len(tu.kids(x)) == 3:
                             try:
-                                a, b = (_vterm(tu, y, env) for y in tu.kids(x)[1:])  # the condition lives in the caller's scope
+                                cenv = _SEL_ENV.get(c['id'], env)       # the condition lives in the caller's scope, or in a followed helper's
+                                a, b = (_vterm(tu, y, cenv) for y in tu.kids(x)[1:])
                                 return a if a == b else None
                             except _NoForm:
                                 return None
